@@ -356,10 +356,38 @@ def dataset_options_rule(ctx, repo):
     ctx.floor("create_dataset(data=...) call sites", n_calls, 5)
 
 
+def empty_sequence_rule(ctx, repo):
+    """C13.codec (sequence clause): a list / tuple is written as a string array exactly when all of its items are strings -- the empty
+    sequence included (all() is vacuously true).  That is what brings `[]` back as a list: the reader turns string arrays into lists and
+    leaves numeric arrays alone, and h5py stores a plain `[]` as an empty float64 array."""
+    enc = repo.func(f"{U}:encode_for_hdf5")
+    par = {ch: p_ for p_ in ast.walk(enc.node) for ch in ast.iter_child_nodes(p_)}
+    rets = [n for n in walk_no_nested(enc.node) if isinstance(n, ast.Return) and isinstance(n.value, ast.Call) and any(k.arg == "dtype" for k in n.value.keywords)
+            and (getattr(n.value.func, "attr", None) or getattr(n.value.func, "id", None)) in ("array", "asarray")]
+    if len(rets) != 1:
+        ctx.unknown("C13.codec", enc.ident, loc_of(enc), f"expected one string-array encoding in encode_for_hdf5, found {len(rets)}", disc="sequence")
+        return
+    cur, test = rets[0], None
+    while cur in par:
+        prev, cur = cur, par[cur]
+        if isinstance(cur, ast.If) and prev in cur.body:
+            test = cur.test
+            break
+
+    def is_all_str(t):
+        return isinstance(t, ast.Call) and isinstance(t.func, ast.Name) and t.func.id == "all" and t.args and isinstance(t.args[0], (ast.GeneratorExp, ast.ListComp)) \
+            and any(isinstance(x, ast.Call) and getattr(x.func, "id", None) == "isinstance" for x in ast.walk(t.args[0]))
+    ok = test is not None and (is_all_str(test) or (isinstance(test, ast.BoolOp) and isinstance(test.op, ast.Or) and any(is_all_str(v) for v in test.values)))
+    ctx.decide(ok, "C13.codec", enc.ident, loc_of(enc, rets[0]), "a sequence is written as a string array iff all its items are strings (vacuously for the empty sequence)",
+               f"the string-array encoding is guarded by `{ast.unparse(test)[:70] if test is not None else None}`: a sequence that satisfies all(...) vacuously -- the empty list -- no longer takes it, "
+               "is stored by h5py as an empty float64 array, and reloads as an array instead of the empty list that was saved", disc="sequence")
+
+
 def run(ctx):
     repo = ctx.repo
     um = repo.module(U)
     dataset_options_rule(ctx, repo)
+    empty_sequence_rule(ctx, repo)
     # ---- what a file holds under /aspire_config is one configuration: the writer removes the group before it writes (the layout is flattened,
     #      so replacing key by key keeps every key only the older configuration had, and the reader rebuilds from the union)
     from ..report import reuse as _reuse
@@ -772,6 +800,9 @@ MUTANTS += [
 ]
 MUTANTS += [
     M("numeric datasets written gzip-compressed whatever their rank", "src/aspire/utils.py", "g.create_dataset(full_key, data=encode_for_hdf5(value))", "g.create_dataset(full_key, data=encode_for_hdf5(value), compression=\"gzip\")", "C13.dsopts"),
+]
+MUTANTS += [
+    M("only a non-empty sequence of strings is written as a string array", "src/aspire/utils.py", "if all(isinstance(v, str) for v in value):", "if value and all(isinstance(v, str) for v in value):", "C13.codec"),
 ]
 NEUTRALS = [
     M("arrays with at least one axis written gzip-compressed", "src/aspire/utils.py", "g.create_dataset(full_key, data=encode_for_hdf5(value))",
